@@ -430,7 +430,9 @@ inline Verdict check_steps(LoopProblem const& P, std::vector<StepRec> const& rec
             if (in_field && s.step_length < dx * (1 - 1e-12) - 1e-14 * scale)
                 R.tag("steps:field-displacement-exceeds-path-within-driver-tolerance");
             if (s.step_length < dx * (1 - 1e-12) - slack)
-                return Verdict{"steps:shorter-than-displacement",
+                return Verdict{in_field && has_msc(P.cfg.along)
+                                   ? "steps:shorter-than-displacement[field+msc]"
+                                   : "steps:shorter-than-displacement",
                                where() + fmt(": length %.17g < displacement %.17g", s.step_length, dx)};
             if (probes)
             {
